@@ -5226,7 +5226,7 @@ func (b *Bitmap) UnmarshalBinary(data []byte) error {
 		return nil
 	}
 	statsHit("Bitmap/UnmarshalBinary")
-	b.opN = 0 // reset opN since we're reading new data.
+	b.ops, b.opN = 0, 0 // reset the op counters since we're reading new data.
 	if len(data) < 2 {
 		return errors.New("data too small")
 	}
